@@ -14,11 +14,19 @@ Proof. reflexivity. Qed.
 Lemma cneg_zero : cneg czero = czero.
 Proof. reflexivity. Qed.
 
+Lemma cifallzero_zero : forall cs a b, Forall (fun t => t = czero) cs -> cifallzero cs a b = a.
+Proof.
+  intros cs a b H. unfold cifallzero.
+  assert (E : filter (fun c => negb (is_czero c)) cs = []).
+  { induction H as [|c r Hc _ IH]; [reflexivity|]. subst c. cbn [filter is_czero czero e_zero negb]. exact IH. }
+  rewrite E. reflexivity.
+Qed.
+
 (* ---------- symbols ---------- *)
 Lemma eqb_symbol_sym : forall x v, is_symbol x = true -> expr_eqb v x = true -> expr_eqb x v = true.
 Proof.
   intros x v Hx H. destruct x; try discriminate; destruct v; try discriminate;
-    unfold expr_eqb in *; cbn [size eqb Nat.add] in *.
+    unfold expr_eqb in *; cbn [size Cmp.eqb Nat.add] in *.
   - apply bytes_eqb_eq in H. subst. apply bytes_eqb_refl.
   - apply andb_prop in H. destruct H as [H1 H2]. apply bytes_eqb_eq in H1. apply N.eqb_eq in H2. subst.
     rewrite bytes_eqb_refl, N.eqb_refl. reflexivity.
@@ -26,7 +34,7 @@ Qed.
 Lemma eqb_symbol_is_symbol : forall x v, is_symbol x = true -> expr_eqb v x = true -> is_symbol v = true.
 Proof.
   intros x v Hx H. destruct x; try discriminate; destruct v; try reflexivity;
-    unfold expr_eqb in H; cbn [size eqb Nat.add] in H; discriminate.
+    unfold expr_eqb in H; cbn [size Cmp.eqb Nat.add] in H; discriminate.
 Qed.
 Lemma occurs_eqb : forall x v, is_symbol x = true -> occurs x v = false -> expr_eqb v x = false.
 Proof.
@@ -71,8 +79,7 @@ Proof.
   destruct (r_inner r) as [| | | | | | |r1 r2| | |]; try discriminate.
   destruct r1 as [[|i]| | | | | | | | | |]; try discriminate.
   destruct r2 as [[|[|j]]| | | | | | | | | |]; try discriminate.
-  cbn [drexp nth map]. rewrite !cmul_zero_r. cbn [cmul is_czero czero e_zero orb]. cbn [cadd is_czero czero e_zero].
-  rewrite cmul_zero_r. destruct (r_neg r); reflexivity.
+  cbn [drexp nth map]. rewrite !cmul_zero_r. destruct (r_neg r); reflexivity.
 Qed.
 
 Lemma pow_rule_zero : forall self b ex, pow_rule self b ex czero czero = czero.
@@ -128,10 +135,10 @@ Proof.
 Qed.
 
 (* ---------- fdiff ---------- *)
-Lemma special_nil : forall self code args x i,
+Lemma special_nil : forall code args x i,
   Forall (fun v => expr_eqb v x = false) args -> special code x i args = [].
 Proof.
-  intros self code args x. induction args as [|v vs IH]; intros i H; [reflexivity|].
+  intros code args x. induction args as [|v vs IH]; intros i H; [reflexivity|].
   inversion H; subst. cbn [special]. rewrite H2. cbn [andb app]. apply IH. assumption.
 Qed.
 
@@ -150,7 +157,7 @@ Lemma fdiff_zero : forall self code args ds x,
   fdiff self code args ds x = czero.
 Proof.
   intros self code args ds x Ha Hd. unfold fdiff.
-  rewrite (special_nil self code args x 0%nat Ha). apply fdiff_sum_zero. assumption.
+  rewrite (special_nil code args x 0%nat Ha). apply fdiff_sum_zero. assumption.
 Qed.
 
 (* ---------- helper: lists of derivatives that are all zero ---------- *)
@@ -181,7 +188,7 @@ Proof.
     destruct (occurs x (fst p)) eqn:E; [|reflexivity].
     assert (existsb (fun p => occurs x (fst p)) d = true) by (apply existsb_exists; exists p; auto). congruence.
   - (* Mul *)
-    apply mul_sum_zero. apply entry_diffs_zero. apply Forall_flat_zero.
+    apply mul_sum_zero. apply entry_diffs_zero. apply (Forall_flat_zero (fun a => diffm m a x)).
     cbn [var_agree absent_guard occurs] in *.
     rewrite forallb_forall in Hv, Hg. rewrite Forall_forall in H |- *. intros p Hp.
     specialize (H p Hp). specialize (Hv p Hp). specialize (Hg p Hp).
@@ -205,7 +212,8 @@ Proof.
     pose proof f1_table_inner as T. rewrite forallb_forall in T. specialize (T c (memN_In _ _ Hmem)).
     destruct (lookup_rule c diff_rules) as [r|].
     + apply apply_rule_arg0_zero; [exact T | reflexivity].
-    + destruct (c =? TC_Abs); [reflexivity|]. rewrite Hun, Hnot.
+    + destruct (c =? TC_Abs); [reflexivity|]. rewrite Hun.
+      destruct (mem_code c deriv_if_dep_codes); [reflexivity|]. rewrite Hnot.
       apply fdiff_zero; [|repeat constructor]. constructor; [|constructor].
       apply occurs_eqb; assumption.
   - (* F2 *)
@@ -225,15 +233,21 @@ Proof.
         constructor; [apply occurs_eqb; assumption|]. constructor; [apply occurs_eqb; assumption|constructor].
   - (* FN *)
     cbn [var_agree absent_guard occurs] in *.
-    apply andb_prop in Hg. destruct Hg as [Hc Hg]. apply N.eqb_eq in Hc. subst c.
-    unfold fn_rule. change ((TC_LeviCivita =? TC_Max) || (TC_LeviCivita =? TC_Min)) with false. cbv iota.
-    change (mem_code TC_LeviCivita boolean_codes || mem_code TC_LeviCivita set_codes) with false. cbv iota.
+    apply andb_prop in Hg. destruct Hg as [Hc Hg].
+    unfold fn_absent_ok in Hc. apply andb_prop in Hc. destruct Hc as [Hnd Hc].
+    apply Bool.negb_true_iff in Hnd.
     rewrite forallb_forall in Hv, Hg. rewrite Forall_forall in H.
-    apply fdiff_zero.
-    + rewrite Forall_forall. intros v Hin. apply occurs_eqb; [assumption|].
+    assert (Hz : Forall (fun t => t = czero) (map (fun a => diffm m a x) l)).
+    { apply Forall_map_zero. rewrite Forall_forall. intros v Hin. apply H; auto.
       destruct (occurs x v) eqn:E; [|reflexivity].
-      assert (existsb (occurs x) l = true) by (apply existsb_exists; exists v; auto). congruence.
-    + apply Forall_map_zero. rewrite Forall_forall. intros v Hin. apply H; auto.
+      assert (existsb (occurs x) l = true) by (apply existsb_exists; exists v; auto). congruence. }
+    unfold fn_rule. rewrite Hnd.
+    destruct (mem_code c deriv_if_dep_codes) eqn:Ed.
+    + apply cifallzero_zero. exact Hz.
+    + cbn [orb] in Hc. apply N.eqb_eq in Hc. subst c.
+      change (mem_code TC_LeviCivita boolean_codes || mem_code TC_LeviCivita set_codes) with false. cbv iota.
+      apply fdiff_zero; [|exact Hz].
+      rewrite Forall_forall. intros v Hin. apply occurs_eqb; [assumption|].
       destruct (occurs x v) eqn:E; [|reflexivity].
       assert (existsb (occurs x) l = true) by (apply existsb_exists; exists v; auto). congruence.
   - (* FunSym *)
@@ -266,7 +280,7 @@ Proof.
     destruct Hv as [Hv1 Hv2], Hg as [Hg1 Hg2], Ho as [Ho1 Ho2].
     rewrite IHe by assumption. unfold subs_rule.
     assert (D0 : (if existsb (fun p => expr_eqb (fst p) x) d then czero else csubst czero d) = czero)
-      by (destruct (existsb _ d); reflexivity).
+      by (destruct (existsb (fun p : expr * expr => expr_eqb (fst p) x) d); reflexivity).
     rewrite D0. apply subs_loop_zero. apply Forall_map_zero.
     rewrite forallb_forall in Hv2, Hg2. rewrite Forall_forall in H |- *. intros p Hp.
     specialize (H p Hp). specialize (Hv2 p Hp). specialize (Hg2 p Hp). apply andb_prop in Hv2, Hg2.
@@ -275,7 +289,16 @@ Proof.
     assert (existsb (fun p => occurs x (fst p) || occurs x (snd p)) d = true).
     { apply existsb_exists; exists p; split; [assumption|]. rewrite E. apply Bool.orb_true_r. }
     congruence.
-  - discriminate.
+  - (* Piecewise *)
+    cbn [var_agree absent_guard occurs] in *.
+    unfold pw_rule. apply cifallzero_zero. apply Forall_map_zero.
+    rewrite forallb_forall in Hv, Hg. rewrite Forall_forall in H |- *. intros p Hp.
+    specialize (H p Hp). specialize (Hv p Hp). specialize (Hg p Hp). apply andb_prop in Hv.
+    apply H; try tauto.
+    destruct (occurs x (fst p)) eqn:E; [|reflexivity].
+    assert (existsb (fun p => occurs x (fst p) || occurs x (snd p)) l = true).
+    { apply existsb_exists; exists p; split; [assumption|]. rewrite E. reflexivity. }
+    congruence.
   - discriminate.
   - discriminate.
   - discriminate.
@@ -284,26 +307,38 @@ Qed.
 (* when bvisit(const Symbol&) compares with eq every leaf is recognised correctly *)
 Lemma var_agree_by_eq : forall x e, var_agree SymByEq x e = true.
 Proof.
-  intros x e. induction e using expr_ind'; cbn [var_agree is_var_mode]; try reflexivity;
-    try (apply Bool.eqb_reflx);
-    try (rewrite ?IHe, ?IHe1, ?IHe2; cbn [andb]);
-    try (apply forallb_forall; intros p Hp; rewrite Forall_forall in H; specialize (H p Hp); try tauto;
-         destruct H as [-> ->]; reflexivity).
-  - rewrite Forall_forall in H. apply forallb_forall. assumption.
-  - rewrite Forall_forall in H0. apply forallb_forall. assumption.
+  intros x e.
+  assert (Hl : forall l, Forall (fun a => var_agree SymByEq x a = true) l -> forallb (var_agree SymByEq x) l = true).
+  { intros l H. apply forallb_forall. rewrite Forall_forall in H. exact H. }
+  assert (Hp : forall l : list (expr * expr),
+             Forall (fun p => var_agree SymByEq x (fst p) = true /\ var_agree SymByEq x (snd p) = true) l ->
+             forallb (fun p => var_agree SymByEq x (fst p) && var_agree SymByEq x (snd p)) l = true).
+  { intros l H. apply forallb_forall. rewrite Forall_forall in H. intros p Hin. destruct (H p Hin) as [-> ->]. reflexivity. }
+  induction e using expr_ind'; cbn [var_agree is_var_mode].
+  - reflexivity.
+  - apply Bool.eqb_reflx.
+  - apply Bool.eqb_reflx.
+  - reflexivity.
+  - apply forallb_forall. rewrite Forall_forall in H. exact H.
+  - apply Hp. exact H.
+  - rewrite IHe1, IHe2. reflexivity.
+  - exact IHe.
+  - rewrite IHe1, IHe2. reflexivity.
+  - apply Hl. exact H.
+  - apply Hl. exact H.
+  - rewrite IHe1, IHe2. reflexivity.
+  - rewrite IHe. apply Hl. exact H.
+  - rewrite IHe. apply Hp. exact H.
+  - apply Hp. exact H.
+  - reflexivity.
+  - rewrite IHe1, IHe2. reflexivity.
+  - reflexivity.
 Qed.
 
-(* and when it compares names, a Dummy and a Symbol of the same name are confused (the behaviour of
-   the code before 35d653d) *)
-Lemma by_name_refuted :
-  exists x e, is_symbol x = true /\ absent_guard e = true /\ occurs x e = false /\
-              diffm SymByName e x = CE e_one.
-Proof. exists (ESym [120]), (EDummy [120] 0). vm_compute. repeat split; reflexivity. Qed.
+(* the source as it is now: bvisit(const Symbol&) compares with eq *)
+Lemma var_agree_current : forall x e, var_agree sym_mode x e = true.
+Proof. exact var_agree_by_eq. Qed.
 
-(* Max, Min, UnevaluatedExpr and Piecewise do not give 0 when x does not occur *)
-Lemma absent_unguarded_refuted :
-  exists x e, is_symbol x = true /\ occurs x e = false /\ diff e x <> czero.
-Proof.
-  exists (ESym [120]), (EFN TC_Max [ESym [121]; ESym [122]]).
-  split; [reflexivity|]. split; [reflexivity|]. vm_compute. discriminate.
-Qed.
+Theorem diff_absent : forall x e,
+  is_symbol x = true -> absent_guard e = true -> occurs x e = false -> diff e x = czero.
+Proof. intros x e Hx Hg Ho. apply diff_absent_guarded; auto using var_agree_current. Qed.
